@@ -93,7 +93,7 @@ def run(tier, seed, replay=None):
         ("random-long-chunked", P + ["--mode", "random", "--n", 250 if q else 2500, "--maxpieces", 40, "--chunk", "some"], N),
     ]
     # plans judged end to end as well (raw input -> L0 parser), not only from the recorded tokens
-    e2e = {"tables", "lf-k3", "random", "random-long-chunked"} | (set() if q else {"triples", "pairs", "aaa-deep", "ark-deep"})
+    e2e = {"tables", "lf-k3", "random", "random-long-chunked"} | (set() if q else {"pairs", "ruby-k4"})
     for (label, args, shards) in plans:
         r.gen_validate(label, args, SPEC, CFG, shards, classify, count_cases, timeout=7000, xmx="4g", also=E2E if label in e2e else ())
     r.assumptions = [
